@@ -65,11 +65,44 @@ def rule_r2(F, rep):
         rep.violation(R, "run|string-index", "string indexing in Evaluator::run no longer uses chars().nth()", run.loc)
 
 
+def rule_r4(F, rep):
+    from . import prov as _prov, evalmarks as em
+    R = rep.rule("C18.R4", "std.join puts a separator before every item except the first one it emits: whether a separator is "
+                 "due is tracked by position (the `first` flag), never read off the output built so far — the output is still "
+                 "empty after leading empty items, whose separators would be lost (join(c, split(s, c)) != s when s starts with c)")
+    n = 0
+    for hname, acc_stack in (("do_std_join_str_item", "string_stack"), ("do_std_join_array_item", "array_stack")):
+        fn = F.fn_opt("<%s>::%s" % (em.EVAL, hname))
+        if fn is None:
+            rep.violation(R, "anchor|%s" % hname, "%s not found (anchor)" % hname)
+            continue
+        rep.fn(fn)
+        n += 1
+        body = fn.body
+        P = _prov.Prov(F, body)
+        bad = []
+        for bb, t in body.calls():
+            nme = callee_name(t) or ""
+            if nme.rsplit("::", 1)[-1] in ("is_empty", "len") and t["xs"]:
+                org = P.origins_op(t["xs"][0])
+                if any(o[0] == "field" and o[2] == acc_stack for o in org) or \
+                        any(o[0] == "call" and ("last_mut" in o[1] or o[1].endswith("::last")) for o in org):
+                    bad.append((nme, body.span(t["sp"])))
+        ok = not bad
+        rep.ob(R, "%s|separator-by-position" % hname, ok, {"handler": hname})
+        for nme, site in bad:
+            rep.violation(R, "%s|separator-from-output" % hname,
+                          "%s asks %s of the output built so far to decide whether a separator is due: leading empty items "
+                          "leave the output empty, so their separators are dropped" % (hname, nme.rsplit("::", 1)[-1]), site)
+    rep.floor(R, n, 2, "join item handlers")
+
+
 def run(F, rep, tier):
     units.rule_mix(F, rep, "C18.R1")
     units.rule_char_and_user(F, rep, "C18.R1b")
     rule_r2(F, rep)
     units.rule_byte_index(F, rep, "C18.R3")
+    rule_r4(F, rep)
     rep.assume("join/split/strip/replace/trim identities are delegated to str::{split,splitn,rsplitn,replace,"
                "strip_prefix,trim_matches} and not decided; `+- constant` after a search is accepted (documented miss)")
     return EXPLANATION
